@@ -68,6 +68,17 @@ theorem C14_partial (src : Src) (ft : FT) (nullable : Bool) (pv : PV)
   · exact h
   · exact absurd _h h
 
+/-- **C14 (an admitted parameter stays bound).** For every variable type of a system field and every value
+    class: when `validate_params` admits the value it puts a value back into the parameter map, so the binding
+    step (`params.get(var).unwrap()`) finds it; hence no request naming a system field panics, in a mutation or in
+    a filter (`id`, `room_id` — the only nullable binary —, `cdate`, `mdate`, `_entity`, `_json`, `_binary`,
+    `verifying_key`, `_signature`). -/
+theorem C14_admitted_parameter_stays_bound :
+    (∀ vt ∈ allVT, ∀ pv ∈ allPV, (validateParam vt pv).1 = .admitted → (validateParam vt pv).2.isSome = true) ∧
+    (∀ c ∈ [Ctx.mutation, Ctx.filter], ∀ f ∈ allSysFields, ∀ pv ∈ allPV, sysRequest c f pv ≠ .panic) ∧
+    sysRequest .mutation .roomId .null = .defined ∧ sysRequest .filter .roomId .null = .defined ∧
+    sysRequest .mutation .id .null = .refused .notNullable := by decide
+
 /-! ### (2) key and signature import, thread pools -/
 
 /-- **C14 (key import is total), intended behaviour** -/
